@@ -262,3 +262,66 @@ def rule_f3(repo, res):
                                 f"{stream}.tell()): a stream handed in at an offset is re-read from another place on the binary "
                                 "fall-back path, so text and binary streams over the same bytes give different modules",
                                 where=f"pvl/__init__.py:{c.lineno}"))
+
+
+def rule_f5(repo, res):
+    """F5: the character-by-character fall-back reads *bytes*.  decode_by_char stops at the first undecodable element
+    of a stream it reads one unit at a time; that finds the end of the label only on a byte stream -- a text stream
+    decodes a whole buffered chunk for each read(1), so the UnicodeDecodeError arrives before any character of the
+    label is returned.  Every argument of decode_by_char in the package is therefore a byte-level stream: opened in
+    the same function with mode "rb", the response of urlopen, or -- for a stream the caller opened -- its `.buffer`
+    (`getattr(stream, "buffer", stream)`).  A bare parameter handed on inside an `except UnicodeDecodeError` handler
+    is exactly the case where the stream is a text stream (only a text stream's read() raises it)."""
+    n = 0
+    for mname in ("__init__", "new", "pvl_translate", "pvl_validate"):
+        if mname not in repo.modules:
+            continue
+        mod = repo.module(mname)
+        for fname, fn in mod.functions.items():
+            params = {a.arg for a in fn.args.posonlyargs + fn.args.args + fn.args.kwonlyargs}
+            for call in [x for x in ast.walk(fn) if isinstance(x, ast.Call) and norm(x.func).split(".")[-1] == "decode_by_char" and x.args]:
+                n += 1
+                a = call.args[0]
+                kind = None
+                if isinstance(a, ast.Name):
+                    # bound by `with open(.., mode="rb") as f` / `with urlopen(..) as resp` / f = open(.., "rb")
+                    for w in ast.walk(fn):
+                        items = w.items if isinstance(w, (ast.With, ast.AsyncWith)) else []
+                        for it in items:
+                            if isinstance(it.optional_vars, ast.Name) and it.optional_vars.id == a.id and isinstance(it.context_expr, ast.Call):
+                                src = norm(it.context_expr, 200)
+                                if norm(it.context_expr.func).split(".")[-1] == "urlopen":
+                                    kind = "response of urlopen"
+                                elif norm(it.context_expr.func).split(".")[-1] == "open" and ("'rb'" in src or '"rb"' in src):
+                                    kind = "opened here in binary mode"
+                        if isinstance(w, ast.Assign) and any(isinstance(t, ast.Name) and t.id == a.id for t in w.targets) \
+                                and isinstance(w.value, ast.Call) and norm(w.value.func).split(".")[-1] == "open" and "rb" in norm(w.value, 200):
+                            kind = "opened here in binary mode"
+                    if kind is None and a.id in params:
+                        # a stream of the caller: is this call inside a handler of UnicodeDecodeError / UnicodeError?
+                        x = call
+                        in_handler = False
+                        while x is not None and x is not fn:
+                            if isinstance(x, ast.ExceptHandler) and x.type is not None and "Unicode" in norm(x.type):
+                                in_handler = True
+                            x = getattr(x, "_parent", None)
+                        kind = "TEXT?" if in_handler else "caller's stream"
+                elif isinstance(a, ast.Attribute) and a.attr == "buffer":
+                    kind = "the byte buffer of the stream"
+                elif isinstance(a, ast.Call) and norm(a.func) == "getattr" and len(a.args) == 3 and isinstance(a.args[1], ast.Constant) \
+                        and a.args[1].value == "buffer":
+                    kind = "the byte buffer of the stream when it has one"
+                elif isinstance(a, ast.Call) and norm(a.func).split(".")[-1] == "open" and "rb" in norm(a, 200):
+                    kind = "opened here in binary mode"
+                ok = kind != "TEXT?"
+                if kind is None:
+                    res.notes.append(f"F5: the kind of `{norm(a, 60)}` in {mname}.{fname} is not decided (not a parameter in a Unicode handler)")
+                res.oblige("F5", f"{mname}.{fname}: `{norm(call, 70)}` reads a byte-level stream ({kind or 'not a stream of the caller whose read() failed'})", ok=ok)
+                if not ok:
+                    msg = (f"{mname}.{fname} hands `{norm(a, 60)}` -- a stream whose read() has just raised UnicodeDecodeError, i.e. a "
+                           "text stream -- to decode_by_char: a text stream decodes a whole buffered chunk for each read(1), so the "
+                           "fall-back returns nothing (or a cut label) for a file with an undecodable tail, while the same file given "
+                           "as a path or a binary stream loads") if kind == "TEXT?" else \
+                        f"{mname}.{fname} hands `{norm(a, 60)}` to decode_by_char and it is not a byte-level stream the rule knows"
+                    res.add(Finding("F5", f"{mname}.{fname}", f"`{norm(call, 70)}`", msg, where=f"pvl/{mname}.py:{call.lineno}"))
+    res.floor("calls of decode_by_char", n, 3)
